@@ -543,3 +543,85 @@ theorem specResolve_builtin_indep (fc : FloatConv) (env env' : FilterEnv) (rules
     rw [this]
 
 end Ombott.Builtins
+
+namespace Ombott.Builtins
+open Py Ombott.Router Ombott.RouteUrl
+
+/-! ### what a concrete wildcard answers, spelled out per kind -/
+
+/-- `v` is the value the wildcard with filter `f` binds when it is tried on the text `s`:
+plain — the text up to the next separator; `int` — the integer the `int` handler reads from a
+`-?\d+` text at the start of `s`; `float` — the numeral matched by `-?\d+(\.\d+)?` at the start
+of `s` (as `repr` of the double inside `exactDec`, the converter's answer outside); `path` — the
+longest newline-free non-empty prefix of `s` followed by the configured literal.  No other
+filter. -/
+def BuiltinAnswer (fc : FloatConv) (f : Option Fid) (s : Str) (v : Val) : Prop :=
+  match f with
+  | none => v = .str (s.takeWhile (· != Gen.pathSep))
+  | some g =>
+    if isIntFid g then ∃ z n, intFilter s = some ⟨intVal z, n, none⟩ ∧ v = intVal z
+    else if isFloatFid g then
+      ∃ l, floatLex s = some l ∧ v = (if exactDec l.dec then floatVal l.dec else fc (s.take l.len))
+    else if isPathFid g then ∃ k, lastOk (pathOk (fidArgs g) s) (dotRun s) = some k ∧ v = .str (s.take k)
+    else False
+
+theorem builtinAnswer_of_tokRes (fc : FloatConv) (env : FilterEnv) (f : Option Fid)
+    (hf : ∀ g, f = some g → (isIntFid g || isFloatFid g || isPathFid g) = true) {s : Str} {r : FilterRes}
+    (h : tokRes (withBuiltin fc env) f s = some r) : BuiltinAnswer fc f s r.val := by
+  cases f with
+  | none =>
+    rw [tokRes_plain] at h
+    cases h
+    rfl
+  | some g =>
+    have hk := hf g rfl
+    simp only [Bool.or_eq_true] at hk
+    have h' : withBuiltin fc env g s = some r := h
+    unfold BuiltinAnswer
+    simp only
+    rcases hk with (hi | hfl) | hp
+    · rw [withBuiltin_int fc env hi] at h'
+      obtain ⟨⟨z, hz⟩, hsel, _⟩ := intFilter_spec h'
+      rw [if_pos hi]
+      refine ⟨z, r.n, ?_, hz⟩
+      rw [h']
+      cases r
+      simp only at hz hsel
+      rw [hz, hsel]
+    · rw [withBuiltin_float fc env hfl] at h'
+      obtain ⟨l, hl, hr⟩ := floatFilter_spec h'
+      rw [if_neg (by simp [not_int_of_float hfl]), if_pos hfl]
+      exact ⟨l, hl, by rw [hr]⟩
+    · rw [withBuiltin_path fc env hp] at h'
+      rw [if_neg (by simp [not_int_of_path hp]), if_neg (by simp [not_float_of_path hp]), if_pos hp]
+      unfold pathFilter at h'
+      cases hl : lastOk (pathOk (fidArgs g) s) (dotRun s) with
+      | none => rw [hl] at h'; cases h'
+      | some k =>
+        rw [hl] at h'
+        simp only [Option.map_some, Option.some.injEq] at h'
+        exact ⟨k, rfl, by rw [← h']⟩
+
+theorem builtinPat_mem {p : List Sym} (h : builtinPat p = true) {g : Fid} (hm : Sym.tok (some g) ∈ p) :
+    (isIntFid g || isFloatFid g || isPathFid g) = true := by
+  induction p with
+  | nil => cases hm
+  | cons s p ih =>
+    cases s with
+    | lit c =>
+      rcases List.mem_cons.mp hm with he | hm'
+      · cases he
+      · exact ih h hm'
+    | tok f =>
+      cases f with
+      | none =>
+        rcases List.mem_cons.mp hm with he | hm'
+        · cases he
+        · exact ih h hm'
+      | some g' =>
+        simp only [builtinPat, Bool.and_eq_true] at h
+        rcases List.mem_cons.mp hm with he | hm'
+        · cases he; exact h.1
+        · exact ih h.2 hm'
+
+end Ombott.Builtins
